@@ -17,8 +17,10 @@ func OpenString(L *LState) int {
 	gmatch := L.NewClosure(strGmatch, L.NewFunction(strGmatchIter))
 	mod.RawSetString("gmatch", gmatch)
 	mod.RawSetString("gfind", gmatch)
-	mod.RawSetString("__index", mod)
-	L.G.builtinMts[int(LTString)] = mod
+	// like lstrlib.c createmetatable: a metatable of its own whose __index is the string table
+	mt := L.NewTable()
+	mt.RawSetString("__index", mod)
+	L.G.builtinMts[int(LTString)] = mt
 	//}
 	L.Push(mod)
 	return 1
